@@ -33,6 +33,9 @@ WS_PIECES = [" ", "  ", "\n", "\t", "\r\n", "\x0c", "&#32;", "&#9;", "&#10;", " 
 PRESERVE = ["pre", "textarea", "style", "script", "xmp", "iframe", "noembed", "noframes", "noscript"]      # Whitespace!Preserve
 
 
+FOREIGN_NAMED = ["input", "link", "source", "param", "area", "col", "track", "wbr", "meta", "base", "textarea", "style", "script", "title"]
+
+
 def pieces():
     """WS_PIECES + every element of the specification's Preserve set + every name literal of the filter's source (so a
     name the implementation treats specially is always in the alphabet) + the characters Python calls whitespace and HTML
@@ -44,6 +47,9 @@ def pieces():
             ps += ["<%s>" % n, "</%s>" % n]
     for c in charclasses.PY_ONLY_SPACE + charclasses.C0_CONTROLS:
         ps += [c + "x", "x" + c, " " + c + " "]
+    # foreign elements that carry the names of HTML void / raw-text / preserve elements (walked as StartTag + EndTag)
+    for n in FOREIGN_NAMED:
+        ps += ["<svg><%s/></svg>" % n, "<math><%s></%s></math>" % (n, n)]
     return ps
 
 
@@ -62,6 +68,11 @@ def streams(ctx, n):
     for n_ in PRESERVE:
         docs.append("<%s>a  b\n\nc</%s> <p>d  e</p>" % (n_, n_))
         docs.append("<div><%s>  a \t b  </%s>  x  </div>" % (n_, n_))
+    for n_ in FOREIGN_NAMED:
+        for pre_ in ("pre", "textarea", "div"):
+            docs.append("<%s><svg><%s/></svg>a  b\n\n  c</%s> d  e" % (pre_, n_, pre_))
+            docs.append("<%s>a  <math><%s>  x  </%s></math>  b</%s>" % (pre_, n_, n_, pre_))
+        docs.append("<svg><style><%s/> a  b</style></svg>  c" % n_)
     from .. import charclasses
     for c in charclasses.PY_ONLY_SPACE + charclasses.C0_CONTROLS:
         docs.append("<b>%sc</b> <i>d%s</i>  <p>%s</p>e %s f" % (c, c, c, c))
@@ -128,6 +139,24 @@ def run(ctx):
             ctx.nontriv(d)
         traces.append({"inp": inp, "out": out})
         meta.append((d, tb))
+    # schedules: one-shot sources, two live instances in lockstep, abandoned iterations
+    from .. import streams as sched
+    from html5lib.filters.whitespace import Filter as WFilter
+    sample = [[tok.unproj_token(t) for t in tr["inp"]] for tr in traces[:: max(1, len(traces) // 80)]][:80]
+    sched.check(ctx, "whitespace filter", lambda src: WFilter(src), sample,
+                key=lambda out: [tok.proj_token(t) for t in out], case=lambda i: {"inp": [tok.proj_token(t) for t in sample[i]]})
+    from .. import optrun
+    _ps = [[tok.proj_token(t) for t in st] for st in sample]
+    optrun.check(ctx, "whitespace", _ps, [[tok.proj_token(t) for t in real_filter([tok.unproj_token(t) for t in st])] for st in _ps])
+    # long text: more whitespace runs in one token than any count a regex call could be limited to
+    from .. import literals
+    for n_ in [n for n in literals.sizes("html5lib/filters/whitespace.py", extra=(64, 256, 512)) if 60 <= n <= 600][::3]:
+        for sep in ("  ", "\n\n", " \t "):
+            data = sep.join("w%d" % i for i in range(n_ + 3))
+            st = [{"type": "StartTag", "name": "p", "namespace": "http://www.w3.org/1999/xhtml", "data": {}},
+                  {"type": "Characters", "data": data}, {"type": "EndTag", "name": "p", "namespace": "http://www.w3.org/1999/xhtml"}]
+            traces.append({"inp": [tok.proj_token(t) for t in st], "out": [tok.proj_token(t) for t in real_filter(st)]})
+            meta.append(("long text with %d whitespace runs" % (n_ + 2), "-"))
     ctx.sample({"code_to_spec_source": meta[-1][0], "tokens": [tok.show(t) for t in traces[-1]["inp"][:8]]})
     consts = "CONSTANT KnownDefects = {%s}\n" % ",".join('"%s"' % d for d in listed)
     idx = {id(t): i for i, t in enumerate(traces)}
